@@ -26,6 +26,9 @@ pub enum Error {
 
     /// An error stepping through the liftover segments.
     StepthroughError(liftover::stepthrough::Error),
+
+    /// A chromosome was declared with two different sizes.
+    ConflictingChromosomeSize(String, Number, Number),
 }
 
 impl std::fmt::Display for Error {
@@ -33,6 +36,11 @@ impl std::fmt::Display for Error {
         match self {
             Error::InvalidSections(err) => write!(f, "invalid data section: {}", err),
             Error::StepthroughError(err) => write!(f, "stepthrough error: {}", err),
+            Error::ConflictingChromosomeSize(contig, existing, size) => write!(
+                f,
+                "the size of chromosome `{}` ({}) conflicts with the previously set size ({})",
+                contig, size, existing
+            ),
         }
     }
 }
@@ -76,11 +84,11 @@ impl Builder {
             query_chromosomes.update(
                 header.query_sequence().chromosome_name().to_string(),
                 header.query_sequence().chromosome_size(),
-            );
+            )?;
             reference_chromosomes.update(
                 header.reference_sequence().chromosome_name().to_string(),
                 header.reference_sequence().chromosome_size(),
-            );
+            )?;
 
             for pair_result in section.stepthrough().map_err(Error::StepthroughError)? {
                 let pair = pair_result.map_err(Error::StepthroughError)?;
@@ -139,18 +147,20 @@ struct ChromosomeDictionaryBuilder(ChromosomeDictionary);
 
 impl ChromosomeDictionaryBuilder {
     /// Updates the contig builder with the current start and end.
-    fn update(&mut self, contig: String, size: Number) {
+    #[allow(clippy::result_large_err)]
+    fn update(&mut self, contig: String, size: Number) -> Result<()> {
         match self.0.get(&contig) {
             Some(existing) => {
-                assert!(
-                    *existing == size,
-                    "the current size conflicts with the previously set size"
-                );
+                if *existing != size {
+                    return Err(Error::ConflictingChromosomeSize(contig, *existing, size));
+                }
             }
             None => {
                 self.0.insert(contig, size);
             }
         }
+
+        Ok(())
     }
 
     /// Consumes `self` and returns the built [`ChromosomeDictionary`].
